@@ -292,6 +292,7 @@ theorem popInstances_ok (u : UC) : ∀ (stmts : List Stmt) (s : BState), KindsDi
       obtain ⟨hrow, hcells⟩ := hall c0 hm0 hk0
       have hens : ensureClass u s kind false (names.getD []) values = s := by simp [ensureClass, hf]
       have hinf : inferOk u s kind false (names.getD []) values = true := by simp [inferOk, hf]
+      have hgs : guessOk u s kind values = true := by simp [guessOk, hf]
       have hstep : (s.update u kind (fun c => { c with rows := c.rows ++ [specCells u c0 c0.attrs values] })).classes =
           s.classes.map (fun c => instStep u c (.insert kind values names)) := by
         rw [update_eq_map]
@@ -304,7 +305,7 @@ theorem popInstances_ok (u : UC) : ∀ (stmts : List Stmt) (s : BState), KindsDi
         · simp [hk]
       have hpop : popInstance u s kind values names =
           .ok (s.update u kind (fun c => { c with rows := c.rows ++ [specCells u c0 c0.attrs values] })) := by
-        simp only [popInstance, hnamed, Bool.false_and, Bool.false_eq_true, if_false, hinf, hens, hf, hrow, Bool.not_true,
+        simp only [popInstance, hnamed, Bool.false_and, Bool.false_eq_true, if_false, hinf, hgs, hens, hf, hrow, Bool.not_true,
           cellsOf, positionalCells_ok u c0 c0.attrs values hcells]
       simp only [popInstances, hpop]
       have hd' : KindsDistinct u (s.classes.map (fun c => instStep u c (.insert kind values names))) := by
@@ -336,8 +337,11 @@ theorem popInstances_ok (u : UC) : ∀ (stmts : List Stmt) (s : BState), KindsDi
     and so are the attribute names within each class;
     identifiers (with attributes) and associations name declared classes, key lists of equal length, target keys
     attributes of the target class; every INSERT is positional, into a declared class whose attribute types are core
-    types, with values that can be read for the type of their column -/
+    types, with values that can be read for the type of their column; no identifier of the form `__x__` where Python
+    makes it an attribute name -/
 structure BuildOk (u : UC) (stmts : List Stmt) : Prop where
+  /-- no identifier of the form `__x__` in an attribute position (outside the model: open finding) -/
+  plain : touchesInternals stmts = false
   distinct : KindsDistinct u (newTables stmts)
   attrNames : ∀ c ∈ newTables stmts, attrNamesOk u c.attrs = true
   idents : ∀ kind name attrs, Stmt.createIndex kind name attrs ∈ stmts → attrs ≠ [] →
@@ -361,12 +365,12 @@ theorem builtClass_attrs (u : UC) (stmts : List Stmt) (c : ClassB) : (builtClass
   unfold builtClass
   rw [foldl_attrs _ (instStep_attrs u), foldl_attrs _ (assocStep_attrs u), foldl_attrs _ (identsStep_attrs u)]
 
-/-- BUILD SUCCESS: a well-formed statement list builds, and the built state holds exactly the declared classes in
+/-- phases 1–4 of a well-formed statement list succeed, and the state holds exactly the declared classes in
     statement order (attributes as declared), each with the identifiers, referential attributes and rows its statements
     give it in statement order, and the associations in statement order -/
-theorem build_ok (u : UC) (stmts : List Stmt) (h : BuildOk u stmts) :
-    build u stmts = .ok { classes := (newTables stmts).map (builtClass u stmts), assocs := ropsOf stmts } := by
-  unfold build
+theorem buildCore_ok (u : UC) (stmts : List Stmt) (h : BuildOk u stmts) :
+    buildCore u stmts = .ok { classes := (newTables stmts).map (builtClass u stmts), assocs := ropsOf stmts } := by
+  unfold buildCore
   have h1 := popClasses_ok u stmts BState.empty (by simpa [BState.empty] using h.distinct) h.attrNames
   simp only [BState.empty, List.nil_append] at h1
   simp only [BState.empty, h1]
